@@ -531,7 +531,7 @@ Proof. reflexivity. Qed.
 
 (* Net.v operations are opened; the library calls on a world stay folded for the step lemmas *)
 Ltac nopen :=
-  cbn -[drain run process_message send_msg disconnect recv_of wapp wlogon wrr wpd wgf
+  cbn -[Nat.ltb length drain run process_message send_msg disconnect recv_of wapp wlogon wrr wpd wgf
         rows_app frames_app frames_pd texts nums Z.add Z.sub Z.of_nat gen payload app_msg logon_msg].
 
 Definition net_up : net :=
@@ -1670,6 +1670,64 @@ Qed.
 Lemma repeated_breaks_instance :
   let s := drain 20 (run net0 (sched_before 1 4 ++ [ABreak; AReconnect] ++ rounds [1; 0; 2]%nat)) in
   holds s = true /\ gb s = map Some (texts 1 5) /\ nin (wb s) = 11 /\ nout (wa s) = 11 /\ nin (wa s) = 10 /\ nout (wb s) = 10.
+Proof. vm_compute. repeat split. Qed.
+
+(* ------------------------------------------------------------------ a break point inside a send:
+   A's last send meets the dead transport: journaled (send_msg journals first), write() raises, the break follows *)
+
+Lemma send_app_fail_step : forall ni no lt si rows ins id,
+  keys_lt no rows -> 0 < no <= I64MAX ->
+  send_msg cfgA (app_msg id) (set_wr false (W 17 1 ni no 0 lt true (no - 1) si rows ins))
+  = mkR (inr XAttribute) (W 17 1 ni (no + 1) 0 lt false no si (rows ++ [(no, wapp cfgA no id)]) ins) [].
+Proof.
+  intros * K B. unfold W. pose proof (has_key_lt _ _ K) as HK.
+  timeout 60 (ev_with ltac:(rewrite ?HK)). fin.
+Qed.
+
+Lemma disconnect_conn_w : forall c s r ni no mr lt wrt so si rows ins,
+  3 < s ->
+  disconnect c ST_DISC_BROKEN None (W s r ni no mr lt wrt so si rows ins)
+  = mkR (inl tt) (W 3 r ni no 0 0 false so si rows ins) [State 3; OnDisconnect].
+Proof. intros * S. unfold W. ev. reflexivity. Qed.
+
+Lemma at_failed_write : forall d k, Z.of_nat (d + S k) + 3 <= I64MAX ->
+  run net0 (sched_before d k ++ [ASendFail SA]) = net_broken d (S k).
+Proof.
+  intros d k B.
+  assert (B' : Z.of_nat (d + k) + 3 <= I64MAX) by lia.
+  rewrite run_app, at_before by exact B'. unfold net_before.
+  cbn [run fold_left]. unfold step, do_send. nopen.
+  replace (W 17 1 2 (2 + Z.of_nat (d + k)) 0 NOW0 true (1 + Z.of_nat (d + k)) 1 (LA1 :: rows_app 2 1 (d + k)) [1])
+    with (W 17 1 2 (2 + Z.of_nat (d + k)) 0 NOW0 true (2 + Z.of_nat (d + k) - 1) 1 (LA1 :: rows_app 2 1 (d + k)) [1])
+    by (f_equal; lia).
+  rewrite send_app_fail_step; [ | | unfold I64MAX in *; lia ].
+  2:{ constructor; [unfold LA1; cbn [fst]; lia | apply keys_lt_gen; lia]. }
+  nopen.
+  match goal with |- context [(?a <? ?b)%nat] =>
+    replace (a <? b)%nat with true by (symmetry; apply Nat.ltb_lt; cbn [length]; rewrite app_length; cbn [length]; lia) end.
+  unfold do_break. nopen.
+  rewrite disconnect_conn_w, disconnect_active by lia. nopen.
+  unfold net_broken. rewrite ?app_nil_r.
+  replace (d + S k)%nat with (S (d + k)) by lia.
+  unfold rows_app, texts. rewrite !gen_snoc. cbn [app].
+  replace (2 + Z.of_nat (d + k) - 1 + 1 - 1) with (2 + Z.of_nat (d + k) - 1) by lia.
+  unfold clear_chans. cbn [wa wb ab ba ga gb sa sb nid app].
+  repeat (first [ reflexivity | lia | f_equal ]).
+Qed.
+
+Theorem failed_write : forall d k fuel,
+  Z.of_nat (d + S k) + 3 <= I64MAX -> (S k + 4 <= fuel)%nat ->
+  recovered (settle fuel (run net0 (sched_before d k ++ [ASendFail SA]))) (d + S k).
+Proof.
+  intros d k fuel B F. rewrite at_failed_write, settle_broken by assumption.
+  replace fuel with (3 + (S k + S (fuel - (S k + 4))))%nat by lia.
+  rewrite recovery_some by assumption. apply final_recovered.
+Qed.
+
+(* cross-check by computation: two sends, the first still in flight, the third send meets the dead transport *)
+Lemma failed_write_instance :
+  let s := settle 20 (run net0 ([AReconnect; ADeliver SB; ADeliver SA; ASend SA; ASend SA; ADeliver SB; ASend SA; ASendFail SA])) in
+  holds s = true /\ sa s = texts 1 4 /\ gb s = map Some (texts 1 4) /\ nin (wb s) = 7 /\ nout (wa s) = 7.
 Proof. vm_compute. repeat split. Qed.
 
 (* ------------------------------------------------------------------ constants of Net.v = the code's (regenerated every run) *)
